@@ -294,6 +294,30 @@ func runC15RetAll(c *Ctx) {
 	p := c.P
 	for _, name := range []string{"LintFiles", "LintFile", "Lint"} {
 		fn := p.Method("Linter", name)
+		// the field of the per-file record that receives the diagnostics returned by check (in LintFiles' goroutines),
+		// whatever the record type and the field are called
+		errsField := "workspace.errs"
+		if fn != nil {
+			for _, f := range append([]*ssa.Function{fn}, fn.AnonFuncs...) {
+				eachInstr(f, func(_ *ssa.BasicBlock, _ int, in ssa.Instruction) {
+					st, ok := in.(*ssa.Store)
+					if !ok {
+						return
+					}
+					fa, ok := st.Addr.(*ssa.FieldAddr)
+					if !ok {
+						return
+					}
+					if ex, ok := st.Val.(*ssa.Extract); ok && ex.Index == 0 {
+						if call, ok := ex.Tuple.(*ssa.Call); ok {
+							if g := staticCallee(&call.Call); g != nil && FuncName(g) == "(*Linter).check" {
+								errsField = fieldAddrName(fa)
+							}
+						}
+					}
+				})
+			}
+		}
 		if fn == nil {
 			c.anchorMissing("(*Linter)." + name)
 			continue
@@ -357,7 +381,7 @@ func runC15RetAll(c *Ctx) {
 					}
 				case *ssa.Call:
 					if bi, ok := x.Call.Value.(*ssa.Builtin); ok && bi.Name() == "append" {
-						if f, _ := fieldLoad(x.Call.Args[1]); f == "workspace.errs" && blockInCycle(x.Block()) {
+						if f, _ := fieldLoad(x.Call.Args[1]); f == errsField && blockInCycle(x.Block()) {
 							okAll = true
 						}
 						walk(x.Call.Args[0], d+1)
@@ -371,7 +395,7 @@ func runC15RetAll(c *Ctx) {
 				for v := range seen {
 					if call, ok := v.(*ssa.Call); ok {
 						if bi, ok := call.Call.Value.(*ssa.Builtin); ok && bi.Name() == "append" {
-							if f, _ := fieldLoad(call.Call.Args[1]); f == "workspace.errs" {
+							if f, _ := fieldLoad(call.Call.Args[1]); f == errsField {
 								for _, h := range loopHeaders(fn) {
 									if naturalLoop(h)[call.Block()] {
 										stop[h] = true
@@ -462,7 +486,19 @@ func runC16Matcher(c *Ctx) {
 		}
 		return "", false
 	}
+	// the header may be written by PrettyPrint itself or by a method of the diagnostic that PrettyPrint calls first
+	model := fn
 	for _, in := range fn.Blocks[0].Instrs {
+		call, ok := in.(*ssa.Call)
+		if !ok {
+			continue
+		}
+		if g := staticCallee(&call.Call); g != nil && inModule(g) && g.Blocks != nil && len(call.Call.Args) > 0 && call.Call.Args[0] == ssa.Value(fn.Params[0]) {
+			model = g
+		}
+		break // only the first call of the function decides
+	}
+	for _, in := range model.Blocks[0].Instrs {
 		call, ok := in.(*ssa.Call)
 		if !ok {
 			continue
